@@ -98,9 +98,9 @@ pub fn all() -> Vec<PropSpec> {
             min_nontrivial: 500,
             id,
             legs: if id == "C11" {
-                vec![Leg::Sched { quick: 320_000, thorough: 6_000_000 }, Leg::Miri { quick_seeds: 24, thorough_seeds: 200 }]
+                vec![Leg::Sched { quick: 320_000, thorough: 4_000_000 }, Leg::Miri { quick_seeds: 24, thorough_seeds: 200 }]
             } else if id == "C12" {
-                vec![Leg::Sched { quick: 200_000, thorough: 4_000_000 }]
+                vec![Leg::Sched { quick: 200_000, thorough: 1_200_000 }]
             } else {
                 vec![Leg::Sched { quick: 320_000, thorough: 6_000_000 }]
             },
@@ -145,12 +145,12 @@ fn vm_specs() -> Vec<PropSpec> {
         min_nontrivial: 1000,
         id,
         legs: match id {
-            "C01" => vec![vm_leg(id, 600_000, 20_000_000), Leg::Fuzz { target: "prog", runs: 20_000 }],
-            "C06" => vec![vm_leg(id, 1_500_000, 150_000_000)],
+            "C01" => vec![vm_leg(id, 600_000, 8_000_000), Leg::Fuzz { target: "prog", runs: 20_000 }],
+            "C06" => vec![vm_leg(id, 3_000_000, 36_000_000)],
             "C16" => vec![vm_leg(id, 1_200_000, 30_000_000), Leg::Fuzz { target: "prog", runs: 20_000 }],
-            "C15" => vec![vm_leg(id, 2_000_000, 200_000_000), timers_leg("C15", 1_000_000, 30_000_000)],
-            "C05" => vec![vm_leg(id, 3_000_000, 300_000_000), timers_leg("C05", 1_000_000, 30_000_000)],
-            _ => vec![vm_leg(id, 3_000_000, 300_000_000)],
+            "C15" => vec![vm_leg(id, 6_000_000, 80_000_000), timers_leg("C15", 2_000_000, 30_000_000)],
+            "C05" => vec![vm_leg(id, 8_000_000, 120_000_000), timers_leg("C05", 2_000_000, 30_000_000)],
+            _ => vec![vm_leg(id, 8_000_000, 150_000_000)],
         },
         rule,
         assumptions: A_VM.to_vec(),
@@ -172,35 +172,35 @@ fn all_base() -> Vec<PropSpec> {
         PropSpec {
             min_nontrivial: 1000,
             id: "C07",
-            legs: timers_legs("C07", 2_000_000, 60_000_000),
+            legs: timers_legs("C07", 6_000_000, 45_000_000),
             rule: "cases are byte strings decoded into timer histories (add/after/max/min add, upd, del, active, run, next_* from top level, main-queue items and timer callbacks); non-trivial = history contains a successful update of a Min/Max timer, or an expiry within 2 resolution steps of a run instant or of the creation time, or a run jumping >= 32767 s with a timer pending; distinct = distinct byte strings (FNV-1a hash)",
             assumptions: A_TIMERS.to_vec(),
         },
         PropSpec {
             min_nontrivial: 1000,
             id: "C08",
-            legs: timers_legs("C08", 2_000_000, 60_000_000),
+            legs: timers_legs("C08", 6_000_000, 45_000_000),
             rule: "timer histories weighted towards Min/Max updates and large jumps; non-trivial = a Min/Max timer was successfully updated to an instant at/before the current time, or (updated at a sub-tick offset and beyond 9 h), or a single run spanned >= 2 re-queue periods (65534 s) with timers pending; distinct = distinct byte strings",
             assumptions: A_TIMERS.to_vec(),
         },
         PropSpec {
             min_nontrivial: 1000,
             id: "C09",
-            legs: timers_legs("C09", 2_000_000, 60_000_000),
+            legs: timers_legs("C09", 6_000_000, 45_000_000),
             rule: "timer histories with next_expiry() checked after every operation and next_wait/next_wait_max with generated now/maxdur/pending; every history ends with the drain loop `while let Some(e) = next_expiry() { run(e) }` under an iteration budget; non-trivial = the earliest deadline belonged to an updated Min/Max timer at some check, or a delete removed the earliest deadline, or the set mixed >= 2 timer kinds; distinct = distinct byte strings",
             assumptions: A_TIMERS.to_vec(),
         },
         PropSpec {
             min_nontrivial: 1000,
             id: "C10",
-            legs: timers_legs("C10", 2_000_000, 60_000_000),
+            legs: timers_legs("C10", 6_000_000, 45_000_000),
             rule: "timer histories where any key ever issued (and the Default key of each kind) may be used at any time; non-trivial = a key was used after its timer fired/was deleted and after >= 2 slots had been freed and another timer created since, or a Default key was used while a timer was pending; distinct = distinct byte strings",
             assumptions: A_TIMERS.to_vec(),
         },
         PropSpec {
             min_nontrivial: 1000,
             id: "C19",
-            legs: timers_legs("C19", 2_000_000, 60_000_000),
+            legs: timers_legs("C19", 6_000_000, 45_000_000),
             rule: "timer histories weighted towards bursts of fixed timers (timer_add/after) sharing or nearly sharing instants, expired by single runs; non-trivial = some run fired >= 3 short fixed timers with >= 2 deadlines >= 2 steps apart and >= 2 given the identical instant; distinct = distinct byte strings",
             assumptions: A_TIMERS.to_vec(),
         },
@@ -266,7 +266,7 @@ pub fn describe_leg(leg: &Leg, thorough: bool) -> Value {
         }),
         Leg::Matrix => json!({
             "kind": "feature-matrix differential: proptest programs sent to one persistent vrun process per feature set",
-            "programs_requested": if thorough { 3_000_000 } else { 160_000 },
+            "programs_requested": if thorough { 2_000_000 } else { 160_000 },
         }),
         Leg::QueueSweep { jmax_q, jmax_t } => json!({
             "kind": "deterministic boundary sweep (enumeration), sharded over worker processes",
